@@ -1,6 +1,7 @@
 package alphsim
 
 import (
+	"strings"
 	"encoding/hex"
 	"fmt"
 	"math/rand"
@@ -51,6 +52,15 @@ func NewWorld(rng *rand.Rand, pageLimit int, mainnet bool, pollMs uint, step fun
 		for i := 0; i < 3; i++ {
 			id := randHex(rng, 32)
 			s.Tokens[id] = &Token{Symbol: fmt.Sprintf("TK%d", i), Name: fmt.Sprintf("Token %d", i), Decimals: []int{0, 8, 18}[i], Mode: "ok"}
+			w.Tokens = append(w.Tokens, id)
+			tokMu.Lock()
+			TokenByAddress[addrOf(id)] = id
+			tokMu.Unlock()
+		}
+		for _, sp := range [][2]string{{"USDT", "Tether USD"}, {"AB\x00CD", "Zero\x00Inside"}, {"\xc3\x28X", "Not\xffUTF8"}} {
+			// metadata is bytes: a zero byte or invalid UTF-8 in the middle is part of the value
+			id := randHex(rng, 32)
+			s.Tokens[id] = &Token{Symbol: sp[0], Name: sp[1], Decimals: 6, Mode: "ok"}
 			w.Tokens = append(w.Tokens, id)
 			tokMu.Lock()
 			TokenByAddress[addrOf(id)] = id
@@ -149,13 +159,27 @@ func (w *World) Intent(kind string, cl uint8) *Intent {
 			p = append(p, cut(t.Name)...)
 		}
 		if kind == "attest-mismatch" {
-			switch w.Rng.Intn(3) {
+			switch w.Rng.Intn(5) {
 			case 0:
 				p[35] ^= 1
 			case 1:
 				p[36] ^= 0x20
-			default:
+			case 2:
 				p[68+w.Rng.Intn(4)] ^= 0x01
+			case 3: // differs from the contract's symbol only by a byte that is not valid UTF-8
+				if len(t.Symbol) >= 2 && len(t.Symbol) < 32 {
+					copy(p[36:68], pad32(t.Symbol[:1]+"\xff"+t.Symbol[1:]))
+				} else {
+					p[36] ^= 0x20
+				}
+			default: // differs only behind a zero byte inside the value (or in the last byte)
+				if i := strings.IndexByte(t.Symbol, 0); i >= 0 && i+1 < len(t.Symbol) {
+					p[36+len(t.Symbol)-1] ^= 0x11
+				} else if len(t.Name) > 0 {
+					p[68+len(t.Name)-1] ^= 0x11
+				} else {
+					p[35] ^= 1
+				}
 			}
 		}
 		in.Payload = p
